@@ -85,7 +85,7 @@ func init() {
 	rules["time.Now"] = func(x *Exec, fr *Frame, st *State, ins ssa.Instruction, sig *types.Signature, args []Value) Value {
 		x.assumed["A-clock: successive time.Now() values do not decrease; time.Time is modelled as integer nanoseconds with the zero time below every clock value"] = true
 		t := Fresh("now", "Int")
-		x.assume(st, And(Gt(t, Int(0)), Ge(t, st.G("clock"))))
+		x.assume(st, And(Gt(t, Int(0)), Gt(t, unixEpoch()), Ge(t, st.G("clock"))))
 		st.setG("clock", t)
 		return Value{T: t}
 	}
@@ -109,9 +109,6 @@ func init() {
 	}
 	rules["time.(Time).Sub"] = func(x *Exec, fr *Frame, st *State, ins ssa.Instruction, sig *types.Signature, args []Value) Value {
 		return Value{T: Sub(args[0].T, args[1].T)}
-	}
-	rules["time.(Time).UnixNano"] = func(x *Exec, fr *Frame, st *State, ins ssa.Instruction, sig *types.Signature, args []Value) Value {
-		return Value{T: UF("time.UnixNano", "Int", args[0].T)}
 	}
 	rules["time.Since"] = func(x *Exec, fr *Frame, st *State, ins ssa.Instruction, sig *types.Signature, args []Value) Value {
 		return Value{T: Fresh("since", "Int")}
@@ -175,7 +172,7 @@ func ruleRetry(x *Exec, fr *Frame, st *State, ins ssa.Instruction, sig *types.Si
 	}
 	site := x.site(fr, ins)
 	evalInv := func(s *State, c Clause) *Term {
-		env := &SpecEnv{x: x, vars: map[string]SVal{}, st: s, old: fr.top.entry, pkg: fr.top.fn.Pkg.Pkg, lets: map[string]*Expr{}, fr: fr.top, free: x.freeOf[con]}
+		env := &SpecEnv{x: x, vars: map[string]SVal{}, st: s, old: fr.top.entry, pkg: fnTypesPkg(fr.top.fn), lets: map[string]*Expr{}, fr: fr.top, free: x.freeOf[con]}
 		for i, p := range con.Params {
 			if i < len(fr.top.params) && i < len(fr.top.fn.Params) {
 				env.vars[p] = SVal{T: fr.top.params[i].T, GT: fr.top.fn.Params[i].Type()}
